@@ -12,7 +12,7 @@ GROUP = dict(name='cli', sources=['h_cli.cpp', 'h_cli_epsic.cpp'],
 
 STOKES_OK = ['1,0,0,0', '1,0.5,0.2,-0.1', '2,0,1,1', '1,1,0,0', '3.5,-1,2,0.5', '1,0.6,0,0.8', '10,6,0,8', '0.25,0.1,-0.1,0.1', '1e2,30,-40,0', '5,3,4,0', '1,0,-1,0',
              '2,0,1.2,1.6', '0.7,0.2,0.3,0.6', '1,0.36,0.48,0.8', '3,1,2,2', '0.9,0.1,0.4,0.8', '0,0,0,0']
-STOKES_BAD = ['1,1,1,0', '1,0.6,0.8,0.1', '0.5,0.4,0.3,0.1', '1,0,0,1.0000001', '-1,0,0,0', '2,2,0.001,0', '0,0,0,1e-9', '1,-1,-1,-1', '-1,3,0,0', '-2,0.5,0.5,0', '-0.5,0,0,0', '-1e-3,0,0,0', '-3,-1,-2,-2', '-1e6,0,0,1']
+STOKES_BAD = ['1,1,1,0', '1,0.6,0.8,0.1', '0.5,0.4,0.3,0.1', '1,0,0,1.0000001', '-1,0,0,0', '2,2,0.001,0', '0,0,0,1e-9', '1,-1,-1,-1', '-1,3,0,0', '-2,0.5,0.5,0', '-0.5,0,0,0', '-1e-3,0,0,0', '-3,-1,-2,-2', '-1e6,0,0,1', '-0,1,0,0', '-0.0,0,0,1e-3', '-1e-400,0.5,0,0', '-0,0,-2,0', '0,1e-300,0,0', '-0e5,3,4,0']
 
 
 def parse4(s): return [float(x) for x in s.split(',')]
